@@ -42,7 +42,7 @@ func doReplay(prop string, scens []Scen, path string) int {
 	sc := scens[idx]
 	x := vsched.Run(r.Choices, vsched.Config{Trace: sc.Horizon == 0, Horizon: sc.Horizon}, sc.Body)
 	fmt.Println(strings.Join(x.Trace, "\n"))
-	msg, key := sc.Check(x)
+	msg, key := judgeExec(sc, x)
 	fmt.Printf("observation: %s\n", sc.Obs(x))
 	if msg != "" {
 		fmt.Printf("VIOLATION property=%s replay=%s\n  key=%s\n  %s\n", prop, path, key, msg)
